@@ -37,6 +37,12 @@ impl StreamBuffer {
         self.pos
     }
 
+    /// Allocated size of the buffer (verification hook only).
+    #[cfg(cfb_verif)]
+    pub(crate) fn allocated_len(&self) -> usize {
+        self.data.len()
+    }
+
     pub(crate) fn filled_len(&self) -> usize {
         self.cap
     }
